@@ -21,6 +21,8 @@ int main(int argc, char **argv)
 {
         int lmax = argc > 1 ? atoi(argv[1]) : 4;
         int nlet = argc > 2 ? atoi(argv[2]) : 4;
+        int kcopies = getenv("VK_KCOPIES") ? atoi(getenv("VK_KCOPIES")) : 1;   /* > 1: sequence-profile kernel, profile of identical copies */
+        int anylen = getenv("VK_ANYLEN") != NULL;                            /* profile side may be longer than the sequence */
         long fails = 0, total = 0;
         int types[5][2] = {{ALN_BIOTYPE_DNA, KALIGN_TYPE_DNA}, {ALN_BIOTYPE_DNA, KALIGN_TYPE_DNA_INTERNAL}, {ALN_BIOTYPE_DNA, KALIGN_TYPE_RNA},
                            {ALN_BIOTYPE_PROTEIN, KALIGN_TYPE_PROTEIN}, {ALN_BIOTYPE_PROTEIN, KALIGN_TYPE_PROTEIN_DIVERGENT}};
@@ -32,7 +34,7 @@ int main(int argc, char **argv)
                 float tol = (types[t][1] == KALIGN_TYPE_RNA) ? 0.06f : 0.011f;
                 if (argc > 5) tol += 2.0f * ap->gpo;   /* user penalties: the property's safe margin (2*gpo), see DESIGN.md C07 */
                 long tf = 0, tt = 0;
-                for (int la = 1; la <= lmax; la++) for (int lb = la; lb <= lmax; lb++) {
+                for (int la = 1; la <= lmax; la++) for (int lb = (anylen ? 1 : la); lb <= lmax; lb++) {
                         long n = 1; for (int k = 0; k < la + lb; k++) n *= nlet;
                         for (long code = 0; code < n; code++) {
                                 uint8_t a[8], b[8]; long c = code;
@@ -43,18 +45,32 @@ int main(int argc, char **argv)
                                 alloc_aln_mem(&m, 256);
                                 m->ap = ap; m->mode = ALN_MODE_FULL; m->len_a = la; m->len_b = lb;
                                 m->seq1 = a; m->seq2 = b; m->prof1 = NULL; m->prof2 = NULL; m->run_parallel = 0;
+                                float *profa = NULL; float F = 1.0f;
+                                if (kcopies > 1) {
+                                        /* profile of kcopies identical copies of a, built as do_align builds it */
+                                        int dpath[16]; float *p2 = NULL, *p1 = NULL;
+                                        make_profile_n(ap, a, la, &profa);
+                                        dpath[0] = la; for (int q = 1; q <= la; q++) dpath[q] = 0; dpath[la + 1] = 3;
+                                        for (int k = 1; k < kcopies; k++) { p2 = NULL; make_profile_n(ap, a, la, &p2); p1 = malloc(sizeof(float) * 64 * (la + 2)); update_n(profa, p2, p1, ap, dpath, k, 1); free(profa); free(p2); profa = p1; }
+                                        set_gap_penalties_n(profa, la, 1);
+                                        m->seq1 = NULL; m->prof1 = profa; m->sip = kcopies; F = (float)kcopies;
+                                }
                                 init_alnmem(m);
                                 aln_runner(m);
                                 tt++;
                                 int ok = vk_path_valid(m->path, la, lb, VK_LAMAX);
                                 if (ok) {
-                                        float hi = oracle_hi_path(ap->subm, ap->gpo, ap->gpe, ap->tgpe, a, la, b, lb, m->path);
-                                        float lo = oracle_lo_opt(ap->subm, ap->gpo, ap->gpe, ap->tgpe, a, la, b, lb);
+                                        static float flatS[23 * 23]; static float *rowsS[23];
+                                        for (int q = 0; q < 23; q++) { rowsS[q] = &flatS[23 * q]; for (int r = 0; r < 23; r++) flatS[23 * q + r] = F * ap->subm[q][r]; }
+                                        float hi = oracle_hi_path(rowsS, F * ap->gpo, F * ap->gpe, F * ap->tgpe, a, la, b, lb, m->path);
+                                        float lo = oracle_lo_opt(rowsS, F * ap->gpo, F * ap->gpe, F * ap->tgpe, a, la, b, lb);
+                                        if (kcopies > 1 && types[t][1] == KALIGN_TYPE_RNA) tol = 0.06f * F;
                                         if (!(hi + tol >= lo)) ok = 0;
                                         if (!ok && tf < 3) { printf("type %d la=%d lb=%d hi=%f lo=%f a=", t, la, lb, hi, lo); for (int k = 0; k < la; k++) printf("%d", a[k]); printf(" b="); for (int k = 0; k < lb; k++) printf("%d", b[k]); printf(" path="); for (int k = 1; k <= la; k++) printf("%d,", m->path[k]); printf("\n"); }
                                 } else if (tf < 3) { printf("type %d la=%d lb=%d INVALID PATH a=", t, la, lb); for (int k = 0; k < la; k++) printf("%d", a[k]); printf(" b="); for (int k = 0; k < lb; k++) printf("%d", b[k]); printf(" path="); for (int k = 1; k <= la; k++) printf("%d,", m->path[k]); printf("\n"); }
                                 if (!ok) tf++;
                                 free_aln_mem(m);
+                                if (profa) free(profa);
                         }
                 }
                 printf("type %d: %ld pairs, %ld oracle failures\n", t, tt, tf);
